@@ -246,6 +246,19 @@ def _fmt_cases(tier):
                 for sep in SEPS:
                     cases.append({"part": "fmt", "shape": list(shape), "kind": "gap", "ext": ext, "sep": sep,
                                   "reader": "table"})
+        # two DIFFERENT files given as file:// URLs, loaded one after the other through the cropping loader and the models
+        if shape == (2, 3):
+            for ext in (".npy", ".fits"):
+                for rd in ("cropped", "m-image", "m-charge"):
+                    cases.append({"part": "fmt", "shape": list(shape), "kind": "float64", "ext": ext, "sep": None,
+                                  "reader": rd, "url_pair": True})
+        # WIDE text tables (3 x 400: lines of ~2000 characters, more than 4096 characters in all)
+        if shape == (2, 3):
+            for ext in (".txt", ".data", ".csv"):
+                for sep in SEPS:
+                    for rd in ("table", "table-v2"):
+                        cases.append({"part": "fmt", "shape": [3, 400], "kind": "int", "ext": ext, "sep": sep,
+                                      "reader": rd})
         # NumPy files saved from a column-major (Fortran-ordered) array: the file records that order
         if shape in ((2, 3), (3, 2)):
             for dt in ("float64", "int16"):
@@ -274,12 +287,57 @@ def _n_fmt(tier):
         per_shape += 5 * (4 + (0 if tier == "quick" else mimg + 1))       # .data
         per_shape += 5 * 2                                                # .csv
     per_shape += len(BIN_DTYPES) * (6 + 4) + 1 + 3
-    return per_shape * len(FMT_SHAPES) + 2 * 5 + 2 * 2 * 5 * 2 + 2 * 2 * 6
+    return per_shape * len(FMT_SHAPES) + 2 * 5 + 2 * 2 * 5 * 2 + 2 * 2 * 6 + 3 * 5 * 2 + 2 * 3
+
+
+def _run_url_pair(case):
+    """two files with different content, each given as a file:// URL: every load returns the content of ITS file"""
+    from pyxel.util import load_cropped_and_aligned_image
+
+    seed = _seed()
+    shape = tuple(case["shape"])
+    rd = case["reader"]
+    viol = []
+    outs = []
+    with Scratch() as d:
+        _clear_caches()
+        arrs, urls = [], []
+        for i in range(2):
+            arr = bin_array("float64", shape, seed) + 1000.0 * i
+            path = os.path.join(d, f"url{i}_{seed}{case['ext']}")
+            if case["ext"] == ".npy":
+                np.save(path, arr)
+            else:
+                from astropy.io import fits
+
+                fits.writeto(path, arr, overwrite=True)
+            arrs.append(arr)
+            urls.append("file://" + path)
+        for order in ((0, 1), (1, 0, 1)):
+            for i in order:
+                try:
+                    if rd == "cropped":
+                        got = np.asarray(load_cropped_and_aligned_image(shape=shape, filename=urls[i]), dtype="float64")
+                    else:
+                        got = run_model("image" if rd == "m-image" else "charge", urls[i], shape)
+                except Exception as e:  # noqa: BLE001
+                    viol.append(({"part": "fmt", "reader": rd, "ext": case["ext"] + "[url]", "code": "read-failed"},
+                                 f"{rd} of {urls[i]}: raised {type(e).__name__}: {str(e)[:200]}"))
+                    return {"viol": viol, "sig": cfgx.sig(["url", rd, case["ext"], "raised"]), "nontrivial": False, "n": 1}
+                outs.append(_txt(got)[:60])
+                if not _same(got, arrs[i]):
+                    viol.append(({"part": "fmt", "reader": rd, "ext": case["ext"] + "[url]", "code": "values"},
+                                 f"{rd} of the URL of file {i} (loaded in the order {order}) returned {_txt(got)}, that file "
+                                 f"holds {arrs[i].tolist()}"))
+                    return {"viol": viol, "sig": cfgx.sig(["url", rd, case["ext"], "wrong"]), "nontrivial": True, "n": 1}
+    return {"viol": viol, "sig": cfgx.sig(["url", rd, case["ext"], outs]), "nontrivial": True, "n": 5, "outcome": outs[:2]}
 
 
 def _run_fmt(case):
     import pyxel
 
+    if case.get("url_pair"):
+        return _run_url_pair(case)
     seed = _seed()
     shape = tuple(case["shape"])
     n = shape[0] * shape[1]
